@@ -823,11 +823,12 @@ func (v *Verifier) verifyFunc(fullKey string, fc *FuncContract) (rep *FuncReport
 		for j, r := range e.retStates {
 			e.results = r.vals
 			for i, en := range fc.Ensures {
-				g := e.evalClause(en, r.st, e.oldState(), nil)
+				rst := e.atLastUnlock(r.st)
+				g := e.evalClause(en, rst, e.oldState(), nil)
 				if g == tTrue {
 					continue
 				}
-				e.obls = append(e.obls, &Obligation{Name: fmt.Sprintf("%s/ensures#%d@return#%d", e.funcKey, i+1, j+1), Kind: "ensures", Goal: g, Hyp: r.st.pc,
+				e.obls = append(e.obls, &Obligation{Name: fmt.Sprintf("%s/ensures#%d@return#%d", e.funcKey, i+1, j+1), Kind: "ensures", Goal: g, Hyp: rst.pc,
 					Func: e.funcKey, Text: en.Text, Props: unionProps(orProps(en.Props, fc.Props)), Mode: fc.Mode, exec: e, Pos: fn.Pos(), Strings: fc.Strings})
 			}
 		}
@@ -841,15 +842,16 @@ func (v *Verifier) verifyFunc(fullKey string, fc *FuncContract) (rep *FuncReport
 			if fc.PerReturn {
 				break
 			}
-			g := e.evalClause(en, ret, e.oldState(), nil)
-			e.obls = append(e.obls, &Obligation{Name: fmt.Sprintf("%s/ensures#%d", e.funcKey, i+1), Kind: "ensures", Goal: g, Hyp: ret.pc,
+			pst := e.atLastUnlock(ret)
+			g := e.evalClause(en, pst, e.oldState(), nil)
+			e.obls = append(e.obls, &Obligation{Name: fmt.Sprintf("%s/ensures#%d", e.funcKey, i+1), Kind: "ensures", Goal: g, Hyp: pst.pc,
 				Func: e.funcKey, Text: en.Text, Props: unionProps(orProps(en.Props, fc.Props)), Mode: fc.Mode, exec: e, Pos: fn.Pos(), Strings: fc.Strings})
 		}
 		// the exit must be reachable (must-fail probe on `ensures false`)
 		e.obls = append(e.obls, &Obligation{Name: e.funcKey + "/cover/exit", Kind: "cover", Goal: tTrue, Hyp: ret.pc, Cover: true,
 			Func: e.funcKey, Text: "a return is reachable under the contract", Props: fc.Props, Mode: fc.Mode, exec: e, Pos: fn.Pos()})
 		if !fc.ModAll {
-			e.frameObligations(ret, s, fc)
+			e.frameObligations(e.atLastUnlock(ret), s, fc)
 		}
 	}
 	rep.Obls = e.obls
